@@ -162,14 +162,20 @@ func Solve(qPlain, qALL string, weak []weakQuery, timeoutMs int) SolveResult {
 	}
 	if !ok {
 		var j2 []job
+		// every solver on the exact query; the weakened encodings on z3-new, the ones that abstract
+		// multiplication or drop quantifiers also on cvc5 and its integer back end
 		for _, sp := range solvers {
 			q := qPlain
 			if sp.all {
 				q = qALL
 			}
 			j2 = append(j2, job{sp: sp, q: q})
-			for _, w := range weak {
-				j2 = append(j2, job{sp, w.q, true, w.label})
+		}
+		for _, w := range weak {
+			j2 = append(j2, job{solvers[0], w.q, true, w.label})
+			if strings.Contains(w.label, "absmul") || strings.Contains(w.label, "noquant") {
+				j2 = append(j2, job{solvers[2], w.q, true, w.label})
+				j2 = append(j2, job{solvers[3], w.q, true, w.label})
 			}
 		}
 		r, _ = race(j2, timeoutMs, &tried)
